@@ -98,6 +98,13 @@ fn build(case: &C01Case) -> (ModelTree, Vec<u32>, Option<u32>)
     for (fi, f) in case.files.iter().enumerate()
     {
         let mut items = Vec::new();
+        // one file in eight writes EVERY statement with something between the macro name and `!`
+        // (comment, left-to-right mark, line break): the text `name!` then occurs nowhere in the file
+        let file_gap: u8 = match f.first()
+        {
+            Some((_, l0)) if l0 % 8 == 7 => 3 + (l0 / 8) % 7,
+            _ => 0,
+        };
         for (k, lay) in f
         {
             let mut s = StmtSpec {
@@ -117,6 +124,7 @@ fn build(case: &C01Case) -> (ModelTree, Vec<u32>, Option<u32>)
                     vec![]
                 },
                 ref_kv: None,
+                ref_modifier: None,
                 msg_prefix: String::new(),
                 msg_body: format!("m{}", lay),
                 args: vec![],
@@ -126,7 +134,7 @@ fn build(case: &C01Case) -> (ModelTree, Vec<u32>, Option<u32>)
                 after: 0,
                 preamble: Preamble::None,
                 trailing_directive: None,
-                name_gap: 0,
+                name_gap: file_gap,
                 bang_gap: 0,
             };
             let set_ref = |s: &mut StmtSpec, n: u32| {
